@@ -182,6 +182,8 @@ def build(o, pose=IDENT, num="float", rep=None):
     if k == "Plane":
         p = mk_point(o["p"], pose, num)
         n = mk_vector(o["n"], pose, num, sc)
+        if form == "GF" or (form is None and VARY is not None and VARY.random() < 0.15):
+            return Plane(n[0], n[1], n[2], n * p.pv())          # the same plane through the general-form constructor
         return Plane(p, n)
     if k == "Polygon":
         pts = [mk_point(P, pose, num) for P in o["cyc"]]
